@@ -737,10 +737,11 @@ Definition eval_ds (g : ds_gen) (cc : cmdline_consts) (name : string) (st : psta
        end.
 
 (** the table the model driver runs: every name bound to its expected tree *)
-Definition expected_gen (c : ds_consts) : ds_gen :=
+Definition expected_gen (c : ds_consts) (ts_wide : bool) : ds_gen :=
   {| g_consts := c;
      g_table := map (fun n => {| de_name := n; de_symbol := ""; de_calls := [];
-                                 de_tree := match expected c n with Some t => t | None => TOther "no expected tree" end |}) tree_class |}.
+                                 de_tree := if ts_wide && seq n "timestamp" then t_timestamp_wide
+                                            else match expected c n with Some t => t | None => TOther "no expected tree" end |}) tree_class |}.
 
 (** * The documented table (etc/snoopy.ini.in, headers of the data source files, util/pwd.c's contract) *)
 Section Documented.
